@@ -72,6 +72,7 @@ def normalize_node(n):
     n.setdefault("pure", False)
     n.setdefault("mayfail", False)        # HGSteps: TLC may inject a failure at any invocation of this node
     n.setdefault("pause_at", [])
+    n.setdefault("dvals", [])             # [[original parameter, text]]: literal of a signature default (default "dflt.<param>")
     n.setdefault("answers", [])           # interrupt: texts of the answers per data output (default ans.<node>.<output>)
     n.setdefault("fn", "term")
     n.setdefault("cache", False)
@@ -150,6 +151,7 @@ FALSY = {"": "", "[]": [], "0": 0, "False": False}
 # (bound values, provided values, interrupt answers); canon() maps the python values back to these texts
 SPECIAL = dict(FALSY)
 SPECIAL["~none"] = None
+SPECIAL.update({"1": 1, "1.0": 1.0, "True": True, "0.0": 0.0})     # == -equal values that are not the same value
 
 
 def answer_text(nd, j):
